@@ -1,0 +1,104 @@
+//go:build verif
+
+package specification
+
+// Thin safety contracts inferred from the code and its call sites by
+// `goagvc infer` (Houdini-style: candidates that do not verify are dropped).
+// Comment-only file; every clause is re-checked on every run: `requires` at
+// every call site, `ensures` at every return of the function.
+
+//@ func NewCookieParameter(p any, schemas any, opts any) (r0 any, r1 any)
+//@   option props=C15
+//@   option inferred=true
+//@   ensures r1 == nil ==> r0 != nil
+
+//@ func NewHeader(s any, schemas any, opts any) (r0 any, r1 any)
+//@   option props=C15
+//@   option inferred=true
+//@   ensures r1 == nil ==> r0 != nil
+
+//@ func NewHeaderParameter(p any, schemas any, opts any) (r0 any, r1 any)
+//@   option props=C15
+//@   option inferred=true
+//@   ensures r1 == nil ==> r0 != nil
+
+//@ func NewLink(s any) (r0 any)
+//@   option props=C15
+//@   option inferred=true
+//@   ensures r0 != nil
+
+//@ func NewMediaType(s any, components any, opts any) (r0 any, r1 any)
+//@   option props=C15
+//@   option inferred=true
+//@   ensures r1 == nil ==> r0 != nil
+
+//@ func NewOAuthFlow(s any) (r0 any, r1 any)
+//@   option props=C15
+//@   option inferred=true
+//@   requires s != nil
+
+//@ func NewOperation(pi any, rawPath any, method any, operation any, specSecurityReqs any, legacyComponents any, securitySchemes any, components any, pathItemParameters any, opts any) (r0 any, r1 any)
+//@   option props=C15
+//@   option inferred=true
+//@   requires operation != nil
+//@   ensures r1 == nil ==> r0 != nil
+
+//@ func NewPathItem(path any) (r0 any)
+//@   option props=C15
+//@   option inferred=true
+//@   ensures r0 != nil
+
+//@ func NewPathParameter(p any, schemas any, opts any) (r0 any, r1 any)
+//@   option props=C15
+//@   option inferred=true
+//@   ensures r1 == nil ==> r0 != nil
+
+//@ func NewQueryParameter(p any, schemas any, opts any) (r0 any, r1 any)
+//@   option props=C15
+//@   option inferred=true
+//@   ensures r1 == nil ==> r0 != nil
+
+//@ func NewRefCookieParam(p any, components any, opts any) (r0 any, r1 any)
+//@   option props=C15
+//@   option inferred=true
+//@   requires p != nil
+
+//@ func NewRefHeaderParam(p any, components any, opts any) (r0 any, r1 any)
+//@   option props=C15
+//@   option inferred=true
+//@   requires p != nil
+
+//@ func NewRefPathParam(p any, components any, opts any) (r0 any, r1 any)
+//@   option props=C15
+//@   option inferred=true
+//@   requires p != nil
+
+//@ func NewRefQueryParam(p any, components any, opts any) (r0 any, r1 any)
+//@   option props=C15
+//@   option inferred=true
+//@   requires p != nil
+
+//@ func NewRequestBody(r any, components any, opts any) (r0 any, r1 any)
+//@   option props=C15
+//@   option inferred=true
+//@   ensures r1 == nil ==> r0 != nil
+
+//@ func NewResponse(s any, components any, opts any) (r0 any, r1 any)
+//@   option props=C15
+//@   option inferred=true
+//@   ensures r1 == nil ==> r0 != nil
+
+//@ func NewSchema(schema any, components any, opts any) (r0 any, r1 any)
+//@   option props=C15
+//@   option inferred=true
+//@   ensures r1 == nil ==> r0 != nil
+
+//@ func NewSecurityScheme(s any) (r0 any, r1 any)
+//@   option props=C15
+//@   option inferred=true
+//@   ensures r1 == nil ==> r0 != nil
+
+//@ func ParseSwagger(spec any, opts any) (r0 any, r1 any)
+//@   option props=C15
+//@   option inferred=true
+//@   ensures r1 == nil ==> r0 != nil
